@@ -49,6 +49,7 @@ def _own_programs():
 
 OWN_NAMES = ["c11:cumprod", "c11:lax_cumprod", "c11:bitcast", "c11:silu_mul_sigmoid", "c11:reductions",
              "c11:reduce_all", "c11:cumsum_softmax", "c11:cumprod_in_loop"]
+OWN_QUICK = ["c11:cumprod", "c11:bitcast", "c11:silu_mul_sigmoid", "c11:reductions", "c11:reduce_all", "c11:cumprod_in_loop"]
 
 
 # ---------------------------------------------------------------------------------- worker side
@@ -201,6 +202,9 @@ def _ort_session(data):
     so.log_severity_level = 4
     so.intra_op_num_threads = 1
     so.inter_op_num_threads = 1
+    # the MODEL's semantics, not that of ORT's rewritten graph: with extended optimisations ORT fuses the opset-21
+    # decomposition of RMS norm into SimplifiedLayerNormalization and the result moves by 2e-4 (observed)
+    so.graph_optimization_level = ort.GraphOptimizationLevel.ORT_DISABLE_ALL
     return ort.InferenceSession(data, so, providers=["CPUExecutionProvider"])
 
 
@@ -260,7 +264,9 @@ def _worker(job):
                     try:
                         outs = sess.run(None, feeds)
                         import numpy as np
-                        if all(isinstance(o, np.ndarray) for o in outs) and sum(o.nbytes for o in outs) <= 8_000_000:
+                        if _compare(outs, sess.run(None, feeds)) is not None:
+                            r["num_skip"] = "nondeterministic program (two runs of the same model differ)"
+                        elif all(isinstance(o, np.ndarray) for o in outs) and sum(o.nbytes for o in outs) <= 8_000_000:
                             r["outputs"] = outs
                             r["num_skip"] = None
                             r["in_sig"] = [(k, str(v.dtype), tuple(v.shape)) for k, v in feeds.items()]
@@ -316,7 +322,9 @@ def _compare(ref, got):
             tol = 1e-2 if a.dtype.itemsize <= 2 else 1e-5
             with warnings.catch_warnings():
                 warnings.simplefilter("ignore")
-                ok = np.allclose(a, b, rtol=tol, atol=tol * 0.1, equal_nan=True)
+                fin = np.abs(a[np.isfinite(a)]) if a.size else a
+                scale = max(1.0, float(fin.max())) if fin.size else 1.0
+                ok = np.allclose(a, b, rtol=tol, atol=tol * scale, equal_nan=True)
             if not ok:
                 with warnings.catch_warnings():
                     warnings.simplefilter("ignore")
@@ -486,8 +494,8 @@ def run(ctx):
 
     claimed = list(range(BASELINE, newest + 1))
     explored = [] if quick else list(range(EXPLORE_FROM, BASELINE))
-    n_claim = 24 if quick else 170
-    n_explore = 0 if quick else 48
+    n_claim = 16 if quick else 120
+    n_explore = 0 if quick else 32
     if os.environ.get("C11_N"):                      # corpus size / opset overrides (development surveys only)
         n_claim = int(os.environ["C11_N"])
     if os.environ.get("C11_OPSETS"):
@@ -504,8 +512,9 @@ def run(ctx):
         [i for i in pinned if ".cumprod:" in keys[i]][:2] + [i for i in pinned if "bitcast_convert_type:" in keys[i]][:1])
     sel_claim = sorted(set(sel) | set(pin_take))
     sel_explore = exports.select_indices(total, n_explore, ctx.seed) if n_explore else []
-    cases_claim = [("reg", i) for i in sel_claim] + [("extra", n) for n in exports.extra_names()] + [("own", n) for n in OWN_NAMES]
-    cases_explore = [("reg", i) for i in sel_explore] + [("extra", n) for n in exports.extra_names()] + [("own", n) for n in OWN_NAMES]
+    own = OWN_QUICK if quick else OWN_NAMES
+    cases_claim = [("reg", i) for i in sel_claim] + [("extra", n) for n in exports.extra_names()] + [("own", n) for n in own]
+    cases_explore = [("reg", i) for i in sel_explore] + [("extra", n) for n in exports.extra_names()] + [("own", n) for n in own]
 
     def needs_own_reference(k, ident):
         # the default export IS the opset-23 export unless the registered testcase pins an opset
@@ -706,13 +715,13 @@ def run(ctx):
     ctx.coverage.update({
         "programs": len(by_case), "registry_cases": len(sel_claim), "registry_total": total,
         "pinned_registry_cases": [keys[i] for i in pin_take][:12],
-        "own_programs": OWN_NAMES, "claimed_opsets": claimed, "default_opset": DEFAULT, "explored_opsets_without_claim": explored,
+        "own_programs": own, "claimed_opsets": claimed, "default_opset": DEFAULT, "explored_opsets_without_claim": explored,
         "newest_opset_of_installed_onnx": newest, "onnxruntime_max_opset": ort_max,
         "per_opset": per_opset, "export_jobs": len(results),
         "models_validated_in_coq": n_valid, "byte_distinct_models_evaluated_in_coq": len(ulist), "evaluations": n_valid + n_numeric,
         "distinct_nontrivial": distinct,
         "rule": "distinct (case, opset) real exports on which Opset.all_problems/opset_ok was evaluated inside Coq; "
-                "numeric_compared = ORT outputs equal to those of the default-opset export on seeded inputs (rtol 1e-5)",
+                "numeric_compared = ORT outputs equal to those of the default-opset export on seeded inputs (rtol 1e-5, atol 1e-5*max(1,|ref|max), graph optimisations off)",
         "numeric_comparisons": n_numeric, "numeric_suspects": len(numeric_suspects), "numeric_confirmed": confirmed,
         "numeric_skipped": num_skips, "ort_kernel_not_implemented": ort_unsupported,
         "standard_ops_seen": len(ops_seen), "foreign_nodes_not_checked_against_schemas": sorted(foreign_nodes)[:20],
